@@ -132,6 +132,8 @@ def run_shard(shard) -> Result:
             except BuildError as e:
                 if e.stage == "protoc":
                     res.discards["protoc-rejected-schema"] += 1
+                    if item.get("kind") != "gen":  # a hand-written set protoc rejects is a harness bug, never a silent skip
+                        res.inconclusive.append(f"hand-written program {name} rejected by protoc: {e.detail[-300:]}")
                     b.cleanup()
                     return res
                 res.violation("generate", [cfg_sig, "plugin-failed", _exc(e.detail)], f"{name} [{cfg}]: {e.detail[-800:]}", w)
